@@ -279,7 +279,19 @@ def run(ctx):
             for _ in range(rng.choice([1, 1, 2, 3])):
                 data, lab = byte_mutation(data, rng)
                 labs.append(lab)
-        kind, detail = run_validator(data)
+        # a third of the cases run under the REAL level constraint table (the permissive one installed by C01.impl()
+        # never raises ValueNotAllowedInLevel for anything but `level`, so those errors' reports were never rendered)
+        real_table = (n % 3 == 1)
+        if real_table:
+            from vc2_conformance.level_constraints import LEVEL_CONSTRAINTS as _LC
+            _saved = list(_LC)
+            _LC[:] = impl().get("orig_level_constraints") or _saved
+            labs = labs + ["real-level-table"]
+        try:
+            kind, detail = run_validator(data)
+        finally:
+            if real_table:
+                _LC[:] = _saved
         hist[kind] = hist.get(kind, 0) + 1
         if kind == "conformance":
             classes[detail] = classes.get(detail, 0) + 1
@@ -314,6 +326,9 @@ def replay(ctx, data):
         return C02_headers.replay_headers(ctx, data)
     install_caps()
     raw = bytes(bytearray.fromhex(inp["bytes_hex"]))
+    if "real-level-table" in (inp.get("mutations") or []):
+        from vc2_conformance.level_constraints import LEVEL_CONSTRAINTS as _LC
+        _LC[:] = impl().get("orig_level_constraints") or list(_LC)
     kind, detail = run_validator(raw)
     print("replaying", data.get("key"), inp.get("mutations"), "->", kind, detail)
     bad = kind in ("crash", "reporting-crash", "timeout")
